@@ -270,34 +270,37 @@ pub fn run_fut_opts<C: FutCase>(rounds: usize, sym_drop: bool, opts: u8) -> Summ
             rounds
         };
         let mut completed = false;
-        let mut r = 0;
-        while r < rounds {
-            if r == stop {
-                break;
-            }
-            let wk = parent_waker(r);
-            let mut cx = Context::from_waker(&wk);
-            let before = snapshot_woken();
-            begin_poll(r);
-            let res = f.as_mut().poll(&mut cx);
-            end_poll();
-            completed = judge(C::FAM, C::norm(res), C::N);
-            if completed {
-                w().decided = true;
-                break;
-            }
-            // the poll returned Pending
-            assert_all_started();
-            assert_woken_were_polled(before, |_| true);
-            assert_no_lost_wake(r, |_| true);
-            fire_phase();
-            assert_no_lost_wake(r, |_| true);
-            r += 1;
+        let mut polls = 0usize;
+        assert!(rounds <= 8);
+        'rounds: {
+            crate::unroll_rounds!(r, rounds, {
+                if r == stop {
+                    break 'rounds;
+                }
+                let wk = parent_waker(r);
+                let mut cx = Context::from_waker(&wk);
+                let before = snapshot_woken();
+                begin_poll(r);
+                let res = f.as_mut().poll(&mut cx);
+                end_poll();
+                polls = r + 1;
+                completed = judge(C::FAM, C::norm(res), C::N);
+                if completed {
+                    w().decided = true;
+                    break 'rounds;
+                }
+                // the poll returned Pending
+                assert_all_started();
+                assert_woken_were_polled(before, |_| true);
+                assert_no_lost_wake(r, |_| true);
+                fire_phase();
+                assert_no_lost_wake(r, |_| true);
+            });
         }
         // stale wake-ups (after completion, or before a mid-flight drop) must not poll a
         // child, panic or deadlock
         fire_phase();
-        sum = Summary { completed, polls: if completed { r + 1 } else { r }, rounds };
+        sum = Summary { completed, polls, rounds };
     }
     finish(&mut slot);
     sum
@@ -787,6 +790,14 @@ mod vec_proofs {
     });
     crate::proof!(tryjoin_vec2_r2_quiet, 6, {
         let s = run_fut_opts::<VecTryJoin<2>>(2, false, 0);
+        witness(&s);
+    });
+    crate::proof!(xjoin_vec2_r3_u3, 3, {
+        let s = run_fut::<VecJoin<2>>(3, false);
+        witness(&s);
+    });
+    crate::proof!(xjoin_vec2_r3_u4, 4, {
+        let s = run_fut::<VecJoin<2>>(3, false);
         witness(&s);
     });
     crate::proof!(join_vec2_r3, 6, {
